@@ -17,7 +17,9 @@
 (***************************************************************************)
 EXTENDS Naturals, Sequences, TLC
 
-CONSTANTS Kinds, MaxLen, ReadSizes
+CONSTANTS Kinds, MaxLen, ReadSizes, Short
+\* Short = TRUE: the underlying file object may return fewer units than requested before the end of the data
+\* (a raw stream, a pipe, a socket); the drivers must go on until a read returns nothing
 
 IsText(k) == k \in {"T", "C", "R", "L", "c", "r"}
 Window(chunk) == SubSeq(chunk, 1, IF Len(chunk) < 2 THEN Len(chunk) ELSE 2)
@@ -39,20 +41,20 @@ Contents == UNION {[1..n -> Kinds] : n \in 0..MaxLen}
 Init == /\ content \in Contents /\ stream \in {"plain", "legacy"}
         /\ pos = 0 /\ fed = <<>> /\ out = <<>> /\ count = 0 /\ nreads = 0 /\ hist = <<>>
 
-\* read(n): n units requested (the legacy stream asserts n >= 512 bytes = 2 units)
-Read(n) ==
+\* read(n): n units requested (the legacy stream asserts n >= 512 bytes = 2 units); the source hands over k <= n
+Read(n, k) ==
     /\ pos < Len(content) \/ nreads = 0          \* the loop stops at the first empty read
     /\ stream = "legacy" => n >= 2
-    /\ LET hi == IF pos + n > Len(content) THEN Len(content) ELSE pos + n
+    /\ LET hi == IF pos + k > Len(content) THEN Len(content) ELSE pos + k
            chunk == SubSeq(content, pos + 1, hi)
            data == IF stream = "legacy" THEN LegacyFed(chunk) ELSE chunk
        IN /\ pos' = hi
           /\ fed' = fed \o data
           /\ out' = out \o chunk                \* the caller always gets the raw bytes
           /\ count' = count + Len(data)         \* total_read counts what was hashed
-    /\ nreads' = nreads + 1 /\ hist' = Append(hist, n)
+    /\ nreads' = nreads + 1 /\ hist' = Append(hist, <<n, k>>)
     /\ UNCHANGED <<content, stream>>
-Next == \E n \in ReadSizes : Read(n)
+Next == \E n \in ReadSizes : \E k \in (IF Short THEN 1..n ELSE {n}) : Read(n, k)
 Spec == Init /\ [][Next]_vars
 AtEOF == pos = Len(content) /\ nreads > 0
 
@@ -73,7 +75,7 @@ Inv_Plain == (AtEOF /\ stream = "plain") =>
                 /\ C14_PassThrough(content, out) /\ C14_PlainDigest(content, fed) /\ C14_PlainCount(content, count)
 Inv_Legacy == (AtEOF /\ stream = "legacy") =>
                 /\ C14_PassThrough(content, out)
-                /\ (nreads = 1 => C14_LegacyOneRead(content, fed))
+                /\ ((nreads = 1 /\ hist[1][2] >= Len(content)) => C14_LegacyOneRead(content, fed))
                 /\ C14_LegacyVariantsAgree(content)
 \* behaviour generation: every complete read sequence with what the hasher must have been fed
 GenPrint == AtEOF => PrintT(<<"CASE", stream, content, hist, fed>>)
